@@ -36,3 +36,25 @@ Print Assumptions C04_other_markers_are_invalid_tags.
 Theorem C04_reader_source_recognised : ob_reader_shapes = true /\ ob_sixty = true.
 Proof. exact (conj reader_shapes sixty). Qed.
 Print Assumptions C04_reader_source_recognised.
+
+(* text before the first marker is ignored, and it is the only thing that is: for a text made of any leading
+   text without a brace followed by segments (each starts with a marker, no further brace, no line break;
+   any runs of line breaks between them), the read is the read of the segments alone - every one of them is
+   parsed (C08 / C15 say what happens to each), nothing of the leading text is *)
+From Wire Require Import Theory.ScanSpec Theory.Segments Theory.SegmentsGen.
+
+Theorem C04_leading_text_is_the_only_ignored_input : forall preset opts lead pairs chunks chunks0 final,
+  no_brace lead = true -> forallb pair_ok pairs = true ->
+  length (lead ++ text2 pairs) < max_token ->
+  concat chunks = lead ++ text2 pairs -> concat chunks0 = text2 pairs ->
+  read_model preset opts chunks final = read_model preset opts chunks0 final /\
+  read_model preset opts chunks final = read_segments preset opts (map fst pairs) final.
+Proof.
+  intros preset opts lead pairs chunks chunks0 final Hl Hok Hlen Hc Hc0. split.
+  - exact (leading_text_is_ignored preset opts lead pairs chunks chunks0 final Hl Hok Hlen Hc Hc0).
+  - exact (read_of_segments2 preset opts lead pairs chunks final Hl Hok Hlen Hc).
+Qed.
+Print Assumptions C04_leading_text_is_the_only_ignored_input.
+
+Example a_header_line_is_brace_free : no_brace (bs "FEDWIRE MESSAGE FILE 2019-04-10") = true /\ no_brace (bs "{99") = false.
+Proof. split; reflexivity. Qed.
